@@ -366,7 +366,7 @@ func main() {
 				mu.Unlock()
 				left := time.Until(sweepDeadline)
 				s, out, err := worker(append(base, "VSIM_MODE=gen", "VSIM_FROM="+strconv.FormatUint(from, 10), "VSIM_N="+strconv.Itoa(n),
-					"VSIM_BUDGET_MS="+strconv.FormatInt(left.Milliseconds()+1000, 10)), left+10*time.Minute)
+					"VSIM_BUDGET_MS="+strconv.FormatInt(left.Milliseconds()+1000, 10)), left+4*time.Minute)
 				mu.Lock()
 				if err != nil {
 					if werr == nil {
